@@ -1,4 +1,5 @@
 import BeyondVerif.Model.CWF
+import BeyondVerif.Model.CWFramesF
 import BeyondVerif.Generated.CWHelperF
 import BeyondVerif.Generated.CWSeqSrcF
 import BeyondVerif.Drv.Util
@@ -38,15 +39,95 @@ def flatMans : List Man → List Float
   | Man.imp tm dv :: rest => [0.0, tm] ++ dv ++ flatMans rest
   | Man.cont ts te a :: rest => [1.0, ts, te] ++ a ++ flatMans rest
 
+/-- a history of one process: `F <tnw> <mu>` new Hill frame | `P <frame> <sma>` propagator on a frame object | `H <sma>` propagator on
+`frame="Hill"` | `C <p>` copy | `N <p>` read: emits n and the TNW flag | `R <p> <t> <x0..x5>` propagate a fresh orbit: emits the state and
+records it as a point | `L <point> <t>` propagate a recorded point further: emits the state and records it.  (indices as floats) -/
+partial def runWorld (w : World) (pts : List (Nat × List Float)) (acc : List Float) : List String → Option (List Float)
+  | [] => some acc
+  | "F" :: rest => do
+    let (fs, rest) ← takeFloats 2 rest
+    match fs with
+    | [tnw, mu] => runWorld (w.step (.newFrame (tnw != 0.0) mu)) pts acc rest
+    | _ => none
+  | "P" :: rest => do
+    let (fs, rest) ← takeFloats 2 rest
+    match fs with
+    | [f, sma] => runWorld (w.step (.newProp f.toUInt64.toNat sma)) pts acc rest
+    | _ => none
+  | "H" :: rest => do
+    let (fs, rest) ← takeFloats 1 rest
+    match fs with
+    | [sma] => runWorld (w.step (.newPropHill sma)) pts acc rest
+    | _ => none
+  | "C" :: rest => do
+    let (fs, rest) ← takeFloats 1 rest
+    match fs with
+    | [p] => runWorld (w.step (.copyProp p.toUInt64.toNat)) pts acc rest
+    | _ => none
+  | "N" :: rest => do
+    let (fs, rest) ← takeFloats 1 rest
+    match fs with
+    | [p] =>
+      let k := p.toUInt64.toNat
+      let n ← w.n k
+      let tnw ← w.tnw k
+      runWorld (w.step (.read k)) pts (acc ++ [n, if tnw then 1.0 else 0.0]) rest
+    | _ => none
+  | "R" :: rest => do
+    let (fs, rest) ← takeFloats 8 rest
+    match fs with
+    | [p, t, x0, x1, x2, x3, x4, x5] =>
+      let k := p.toUInt64.toNat
+      let r ← w.propagate k [] t 0.0 [x0, x1, x2, x3, x4, x5]
+      runWorld (w.step (.read k)) (pts ++ [(k, r)]) (acc ++ r) rest
+    | _ => none
+  | "L" :: rest => do
+    let (fs, rest) ← takeFloats 2 rest
+    match fs with
+    | [q, t] =>
+      let (k, x) ← pts[q.toUInt64.toNat]?
+      let r ← w.propagate k [] t 0.0 x
+      runWorld (w.step (.read k)) (pts ++ [(k, r)]) (acc ++ r) rest
+    | _ => none
+  | _ => none
+
+/-- `r` read n (emits it) | `w <mu> <sma>` in-place write | `c` the object is replaced by its copy -/
+partial def runMemo (m : Memo) (acc : List Float) : List String → Option (List Float)
+  | [] => some acc
+  | "r" :: rest => let (v, m') := m.read; runMemo m' (acc ++ [v]) rest
+  | "c" :: rest => runMemo m.copy acc rest
+  | "w" :: rest => do
+    let (fs, rest) ← takeFloats 2 rest
+    match fs with
+    | [mu, sma] => runMemo (m.write mu sma) acc rest
+    | _ => none
+  | _ => none
+
 /-- `cw <tnw 0|1> <n> <t> <x0..x5> <mans…>` → six floats: `propagate` from epoch 0 to time t
     `cw0 <tnw> <n> <t> <t0> <x0..x5> <mans…>` → `propagate` of an orbit dated `t0` (a propagated orbit that still carries the list)
     `cwref <n> <t> <t0> <x0..x5> <mans…>` → `hillSol`, the reference solution (QSW)
     `cwfix <n> <t> <t0> <x0..x5> <mans…>` → `cwPropagateFixed` (the sequencing of the proposed fix, QSW)
     `cwstep <tnw> <n> <t> <x0..x5> <a0..a2>` → `_propagate` with acceleration
     `cwmat <n> <t>` → the 36 + 18 matrix entries
+    `memo <mu> <sma> <r | w mu sma | c …>` → the reads of n of one propagator object along a history of writes / copies (`runMemo`)
+    `world <tnw0> <mu0> <history…>` → what the reads of the history return (`runWorld`; object model Model/CWFrames)
     `helper <tnw> coelliptic|hohmann|eccentric|tangential|vbar <n> <3 arguments in the order of the Python signature; continuous as 0/1>`
        → the translated `CWHelper` method (Generated/CWHelperF.lean): state, or maneuvers flattened by `flatMans` -/
 def handle : List String → Option String
+  | "memo" :: rest => some <|
+    match takeFloats 2 rest with
+    | some ([mu, sma], ops) =>
+      match runMemo ⟨mu, sma, none⟩ [] ops with
+      | some fs => fsToStr fs
+      | none => "bad-op"
+    | _ => "bad-op"
+  | "world" :: rest => some <|
+    match takeFloats 2 rest with
+    | some ([tnw0, mu0], ops) =>
+      match runWorld (World.init (tnw0 != 0.0) mu0) [] [] ops with
+      | some fs => fsToStr fs
+      | none => "bad-op"
+    | _ => "bad-op"
   | "cw" :: tnw :: rest => some <| Id.run do
     match takeFloats 8 rest with
     | some ([n, t, x0, x1, x2, x3, x4, x5], rest) =>
